@@ -1052,6 +1052,39 @@ pub trait LSMIterator {
 }
 
 // Verification hooks (guarded; stripped unless built with cfg(kani) or --cfg surrealkv_verif).
+/// Fault injection for the bounded failure-path checks: an armed site makes the n-th call of that I/O step
+/// fail with an I/O error. Compiled only with --cfg surrealkv_verif; nothing is ever armed otherwise.
+#[cfg(surrealkv_verif)]
+pub(crate) mod verif_fault {
+	use std::sync::Mutex;
+	/// (site, calls still to let through, persistent)
+	static ARMED: Mutex<Option<(&'static str, u64, bool)>> = Mutex::new(None);
+	static HITS: Mutex<u64> = Mutex::new(0);
+	pub(crate) fn arm(site: &'static str, nth: u64, persistent: bool) {
+		*ARMED.lock().unwrap() = Some((site, nth, persistent));
+		*HITS.lock().unwrap() = 0;
+	}
+	pub(crate) fn disarm() -> u64 {
+		*ARMED.lock().unwrap() = None;
+		*HITS.lock().unwrap()
+	}
+	pub(crate) fn check(site: &'static str) -> std::io::Result<()> {
+		let mut g = ARMED.lock().unwrap();
+		if let Some((s, n, persistent)) = *g {
+			if s == site {
+				if n == 0 {
+					if !persistent {
+						*g = None;
+					}
+					*HITS.lock().unwrap() += 1;
+					return Err(std::io::Error::new(std::io::ErrorKind::Other, "verif: injected I/O fault"));
+				}
+				*g = Some((s, n - 1, persistent));
+			}
+		}
+		Ok(())
+	}
+}
 #[cfg(kani)]
 mod verif_kani {
 	include!(concat!(env!("SURREALKV_VERIF_DIR"), "/kani/lib.rs"));
